@@ -4,6 +4,7 @@ import Skc.Lemmas.PeltCorollaries
 import Skc.Lemmas.Congr
 import Skc.Lemmas.Tables
 import Skc.Lemmas.GaussCov
+import Skc.Lemmas.PeltAffine
 import Mathlib.Algebra.Order.BigOperators.Group.List
 
 /-! # C12 — detections respect the model's symmetries: permutation, shift, scale, reversal
@@ -191,6 +192,67 @@ theorem gcov_scale_invariant {p : ℕ} (x : ℕ → Fin p → ℝ) (a : ℝ) (ha
     gcovCost (fun i j => a * x i j) s e = gcovCost x s e + ((e : ℝ) - s) * p * Real.log (a ^ 2) ∧
     gcovChange (fun i j => a * x i j) s k e = gcovChange x s k e :=
   ⟨covMat_scale x a s e, gcovCost_scale x a ha s e hd, gcovChange_scale x a ha s k e hd hd1 hd2⟩
+
+/-! ### composed statements: PELT on rescaled data (Gaussian costs) -/
+
+/-- **C12, lift of the scale symmetry to PELT**: a cost that changes by a term proportional to the segment
+    length (`cost' s e = cost s e + c (e − s)` on the cuts PELT reads) gives the same changepoints; the
+    prefix scores move by `c t`.  (Rescaling the data changes a Gaussian cost by `(e − s) log a²` per
+    column: the cost is *not* invariant, PELT's output is.) -/
+theorem pelt_output_invariant_under_length_proportional_terms (cost cost' : ℕ → ℕ → ℝ) (c pen : ℝ) (m n : ℕ)
+    (hm : 1 ≤ m) (hn : 2 * m ≤ n)
+    (h : ∀ s e, s + m ≤ e → e ≤ n → cost' s e = cost s e + c * ((e : ℝ) - s)) :
+    (runPeltCode cost' pen m n).2 = (runPeltCode cost pen m n).2 ∧
+      ∀ t, m ≤ t → t ≤ n → (runPeltCode cost' pen m n).1 t = (runPeltCode cost pen m n).1 t + c * t :=
+  runPeltCode_affine cost cost' c pen m n hm hn h
+
+theorem segVar_scale (x : ℕ → ℝ) (a : ℝ) (s e : ℕ) :
+    segVar (fun i => a * x i) s e = a ^ 2 * segVar x s e := by
+  have h1 : segSum (fun i => a * x i) s e = a * segSum x s e := by
+    simp only [segSum, Finset.mul_sum]
+  have h2 : segSum (fun i => (a * x i) ^ 2) s e = a ^ 2 * segSum (fun i => x i ^ 2) s e := by
+    simp only [segSum, Finset.mul_sum, mul_pow]
+  simp only [segVar, h1, h2]
+  ring
+
+/-- **C12, scale, detector level**: PELT with the univariate Gaussian cost returns the same changepoints on
+    `a · x` (`a > 0`) as on `x`, provided the empirical variances of the intervals it reads are at or above
+    the floor before and after rescaling (at the floor the cost is not scale-equivariant) -/
+theorem pelt_gauss_scale_invariant (x : ℕ → ℝ) (a pen : ℝ) (ha : 0 < a) (m n : ℕ) (hm : 1 ≤ m) (hn : 2 * m ≤ n)
+    (habove : ∀ s e, s + m ≤ e → e ≤ n → varFloorConst ≤ segVar x s e ∧ varFloorConst ≤ a ^ 2 * segVar x s e) :
+    (runPeltCode (gaussTable (fun i => a * x i)) pen m n).2 = (runPeltCode (gaussTable x) pen m n).2 := by
+  refine (runPeltCode_affine (gaussTable x) (gaussTable (fun i => a * x i)) (Real.log (a ^ 2)) pen m n hm hn ?_).1
+  intro s e hse hen
+  obtain ⟨h1, h2⟩ := habove s e hse hen
+  have hf : (0 : ℝ) < varFloorConst := by unfold varFloorConst; norm_num
+  have hv : 0 < segVar x s e := lt_of_lt_of_le hf h1
+  have ha2 : (0 : ℝ) < a ^ 2 := by positivity
+  have hpi : (0 : ℝ) < 2 * Real.pi := by positivity
+  have e1 : CF.varFloor (segSum (fun i => a * x i) s e) (segSum (fun i => (a * x i) ^ 2) s e) ((e : ℝ) - s)
+      = a ^ 2 * segVar x s e := by
+    have := segVar_scale x a s e
+    simp only [segVar] at this
+    simp only [CF.varFloor, this]
+    exact max_eq_left h2
+  have e2 : CF.varFloor (segSum x s e) (segSum (fun i => x i ^ 2) s e) ((e : ℝ) - s) = segVar x s e := by
+    simp only [CF.varFloor, segVar]
+    exact max_eq_left h1
+  simp only [gaussTable, CF.gaussOptim, e1, e2]
+  rw [show 2 * Real.pi * (a ^ 2 * segVar x s e) = a ^ 2 * (2 * Real.pi * segVar x s e) by ring,
+    Real.log_mul ha2.ne' (by positivity)]
+  ring
+
+/-- **C12, scale, detector level, multivariate**: PELT with the multivariate Gaussian cost (from the rows)
+    returns the same changepoints on `a · x`, provided the sample covariances of the intervals it reads
+    are non-singular (otherwise the code raises) -/
+theorem pelt_gcov_scale_invariant {p : ℕ} (x : ℕ → Fin p → ℝ) (a pen : ℝ) (ha : 0 < a) (m n : ℕ)
+    (hm : 1 ≤ m) (hn : 2 * m ≤ n) (hdet : ∀ s e, s + m ≤ e → e ≤ n → 0 < (covMat x s e).det) :
+    (runPeltCode (gcovCost (fun i j => a * x i j)) pen m n).2 = (runPeltCode (gcovCost x) pen m n).2 := by
+  refine (runPeltCode_affine (gcovCost x) (gcovCost (fun i j => a * x i j)) (p * Real.log (a ^ 2)) pen m n
+    hm hn ?_).1
+  intro s e hse hen
+  rw [gcovCost_scale x a ha s e (hdet s e hse hen)]
+  ring
 
 /-! ### time reversal -/
 
